@@ -328,6 +328,9 @@ func (c *Client) startTLS(config *tls.Config) error {
 	}
 	c.setConn(tls.Client(c.conn, config))
 	c.didHello = false
+	// RFC 3207 section 4.2: knowledge obtained before the TLS handshake,
+	// such as the list of extensions, must be discarded
+	c.ext = nil
 	return nil
 }
 
